@@ -55,7 +55,7 @@ Definition sort_off {A} (l : list (N * A)) : list (N * A) := fold_right insert_o
 
 Definition model_data (b : bucket) : list (N * N * list (N * bytes * Z)) :=
   List.concat (map (fun p => let '(c, k) := p in
-                        if k_exists k then [(N.of_nat c, k_fsize k, map (fun e => (fst e, d_key (snd e), d_ver (snd e))) (sort_off (k_disk k)))]
+                        if k_exists k && negb (k_fsize k =? 0) then [(N.of_nat c, k_fsize k, map (fun e => (fst e, d_key (snd e), d_ver (snd e))) (sort_off (k_disk k)))]
                         else [])
               (combine (seq 0 (List.length (b_chunks b))) (b_chunks b))).
 
